@@ -23,7 +23,8 @@ RULE = ('sequential: histories of push/pull/peek on both sides over prefixes {No
         'with a preemption inside an operation')
 DISTINCT = ('cells', 'schedules')
 REQUIRED = ('sequential_calls', 'pulls_of_expired_heads', 'file_backed_items', 'ordinary_keys_interleaved',
-            'schedules_checked', 'free_runs', 'items_delivered_concurrently', 'prefix_extension_cases')
+            'schedules_checked', 'free_runs', 'items_delivered_concurrently', 'prefix_extension_cases',
+            'timed_schedules_checked', 'timed_items_delivered', 'timed_items_expired_undelivered')
 ASSUMPTIONS = ('a queue key is `prefix-<15 digits>` (or an int in (0, 10**15) for prefix None); every other key is an '
                'ordinary key outside the queue key range',)
 
@@ -330,6 +331,206 @@ def schedule(dc, sc, res, rng, label):
         sc.drop(d)
 
 
+# ------------------------------------------------- concurrent, with expiring items (timed linearizability)
+TICK = probe.VClock.TICK
+INF = float('inf')
+
+
+def tq_step(state, o):
+    """Deque model with expiry under a clock.  state = (items, L): items are (value, e_lo, e_hi) in queue order
+    (e_* None = no ttl), L = instant of the last linearized call.  A call takes effect at one instant t of its own
+    window [t0, t1], not before L.  An item may be treated as expired iff t > e_lo and as live iff t <= e_hi (its exact
+    expiry instant lies in [e_lo, e_hi]; both are that instant when a pull reported it).  pull/peek pass over the
+    expired items at their side and return the first live one.  Expired items are invisible, so when exactly they
+    are physically discarded is not modelled: keys and len(), which depend on it, are left out of the comparison."""
+    q, L = state
+    op, a, kw = o['op'], o['args'], o.get('kw') or {}
+    t_lo = max(L, o['t0'])
+    t_hi = o['t1'] if o.get('t1') is not None else INF
+    if t_lo > t_hi:
+        return []
+    if op == 'push':
+        item = (a[0], o.get('e_lo'), o.get('e_hi'))
+        nq = q + (item,) if kw.get('side', 'back') == 'back' else (item,) + q
+        return [((nq, t_lo), 'ok', 'pushed')]
+    if op in ('pull', 'peek'):
+        side = kw.get('side', 'front')
+        seq = list(q) if side == 'front' else list(reversed(q))
+        out = []
+        t = t_lo
+        for k in range(len(seq) + 1):
+            # the first k items are passed over as expired at instant t
+            if k < len(seq):
+                value, e_lo, e_hi = seq[k]
+                if e_hi is None or t <= e_hi:
+                    rest = seq[:k] + seq[k + 1:] if op == 'pull' else seq
+                    nq = tuple(rest) if side == 'front' else tuple(reversed(rest))
+                    out.append(((nq, t), 'ok', (value, e_lo if e_lo == e_hi else ('?', e_lo, e_hi))))
+                if e_lo is None:
+                    break                                   # an item without a ttl is never passed over
+                t = max(t, e_lo + TICK / 4)
+                if t > t_hi:
+                    break
+            else:
+                out.append(((q, t), 'ok', (None, None)))
+        return out
+    raise ValueError(op)
+
+
+def timed_schedule(dc, sc, res, rng, label):
+    """Producers and consumers of one queue whose items carry ttls of a few clock ticks, so that items expire while
+    calls are in flight; every clock read ticks the virtual clock.  Judged by the timed model above."""
+    d = sc.new()
+    clock = probe.set_clock(probe.VClock())
+    shared = rng.random() < 0.4
+    setup = dc.Cache(d, timeout=0, disk_min_file_size=T, cull_limit=0)     # no lazy culling: physical removal of expired
+    ttls = [None, 2.5, 6.5, 14.5, 40.5, 300.5, 3000.5]                     # items only by the calls under test (ticks)
+    ops = []
+    stamp = [0]
+
+    def value(ci):
+        stamp[0] += 1
+        return ('t%d-%d;' % (ci, stamp[0])) * (20 if rng.random() < 0.3 else 1)
+
+    def push_call(cache, v, side, ttl):
+        return cache.push(v, prefix='q', side=side, expire=None if ttl is None else ttl * TICK, retry=True)
+
+    for _ in range(rng.randrange(0, 4)):                                    # items present before the clients start
+        v, ttl = value(9), gen.pick(rng, ttls)
+        t0 = clock.now_peek()
+        key = push_call(setup, v, 'back', ttl)
+        ops.append({'client': 98, 'op': 'push', 'args': (v,), 'kw': {'side': 'back', 'ttl': ttl}, 'call': -10 + len(ops),
+                    'ret': -10 + len(ops) + 0.5, 'kind': 'ok', 'result': key, 't0': t0, 't1': clock.now_peek()})
+    nprod, ncons = rng.randrange(1, 3), rng.randrange(1, 4)
+    n = nprod + ncons
+    caches = [setup if shared else dc.Cache(d, timeout=0) for _ in range(n)]
+    sch = Sched(rng, clock, strategy=rng.choice(['random', 'preempt', 'random']),
+                preempt_points={rng.randrange(0, 80) for _ in range(3)})
+    rec = Recorder(sch)
+
+    def producer(ci):
+        plan_ = [(value(ci), 'back' if rng.random() < 0.8 else 'front', gen.pick(rng, ttls)) for _ in range(rng.randrange(1, 4))]
+
+        def run():
+            for v, side, ttl in plan_:
+                rec.call(ci, 'push', (v,), lambda: push_call(caches[ci], v, side, ttl), {'side': side, 'ttl': ttl})
+        return run
+
+    def consumer(ci):
+        plan_ = [('front' if rng.random() < 0.8 else 'back', 'pull' if rng.random() < 0.75 else 'peek')
+                 for _ in range(rng.randrange(1, 4))]
+
+        def run():
+            for side, op in plan_:
+                rec.call(ci, op, (), lambda: getattr(caches[ci], op)(prefix='q', side=side, expire_time=True,
+                                                                      retry=True), {'side': side})
+        return run
+
+    try:
+        ok = sch.run([producer(i) for i in range(nprod)] + [consumer(nprod + i) for i in range(ncons)])
+        probe.set_controller(None)
+        extra = {'label': label, 'shared_object': shared, 'trace_hash': sch.trace_hash(), 'tick': TICK}
+        errs = sch.errors()
+        if errs:
+            res.violation('client died: %s' % errs[0][1][1][-400:], extra)
+            return
+        if not ok:
+            res.count('schedules_hit_step_cap')
+            return
+        ops.extend(rec.ops)
+        for o in ops:
+            if o['kind'] == 'raise':
+                res.violation('%s raised %s (%s)' % (o['op'], o['result'], o.get('exc')), extra)
+                return
+        # drain through a fresh handle, long after every ttl has passed
+        clock.advance(1.0)
+        fresh = dc.Cache(d)
+        t = sch.tick + 5
+        while True:
+            t0 = clock.now_peek()
+            got = fresh.pull(prefix='q', expire_time=True)
+            ops.append({'client': 99, 'op': 'pull', 'args': (), 'kw': {'side': 'front'}, 'call': t, 'ret': t + 1,
+                        'kind': 'ok', 'result': got, 't0': t0, 't1': clock.now_peek()})
+            t += 2
+            if got == ((None, None), None):
+                break
+        left = len(fresh)
+        fresh.close()
+        # expiry instants: exact where a pull/peek reported one, otherwise bounded by the push's own window
+        exact = {}
+        for o in ops:
+            if o['op'] in ('pull', 'peek') and o['result'][0] != (None, None):
+                exact[o['result'][0][1]] = o['result'][1]
+        pushed = {}
+        for o in ops:
+            if o['op'] == 'push':
+                ttl = o['kw']['ttl']
+                v = o['args'][0]
+                pushed[v] = ttl
+                if ttl is None:
+                    o['e_lo'] = o['e_hi'] = None
+                    if exact.get(v, None) is not None:
+                        res.violation('an item pushed without a ttl was delivered with expiry instant %r' % (exact[v],), extra)
+                        return
+                elif v in exact:
+                    e = exact[v]
+                    if e is None or not (o['t0'] + ttl * TICK <= e <= o['t1'] + ttl * TICK):
+                        res.violation('an item pushed with ttl %r ticks was delivered with expiry instant %r, outside '
+                                      'push window + ttl' % (ttl, e), dict(extra, push=[o['t0'], o['t1']]))
+                        return
+                    o['e_lo'] = o['e_hi'] = e
+                else:
+                    o['e_lo'], o['e_hi'] = o['t0'] + ttl * TICK, o['t1'] + ttl * TICK
+        pulls = [o['result'][0][1] for o in ops if o['op'] == 'pull' and o['result'][0] != (None, None)]
+        if len(set(pulls)) != len(pulls):
+            res.violation('an item was delivered twice', dict(extra, pulled=sorted(pulls)))
+            return
+        lost = [v for v, ttl in pushed.items() if ttl is None and v not in pulls]
+        if lost or left:
+            res.violation('items without a ttl were never delivered: %r (len after drain %d)' % (lost[:3], left), extra)
+            return
+        res.count('timed_items_delivered', len(pulls))
+        res.count('timed_items_expired_undelivered', len(pushed) - len(pulls))
+        hist = [{k: o.get(k) for k in ('client', 'op', 'args', 'kw', 'call', 'ret', 'result', 't0', 't1', 'e_lo', 'e_hi')}
+                for o in ops]
+        keys_now = {}
+        for o in ops:                         # keys: a delivered item carries the key its push returned
+            if o['op'] == 'push':
+                keys_now[o['args'][0]] = o['result']
+        for o in ops:
+            if o['op'] in ('pull', 'peek') and o['result'][0] != (None, None):
+                (k, v), e = o['result']
+                if keys_now.get(v) != k:
+                    res.violation('item %r was pushed as %r but delivered as %r' % (v[:12], keys_now.get(v), k), extra)
+                    return
+        abstract = []
+        for o in ops:
+            o2 = dict(o)
+            o2['result'] = 'pushed' if o['op'] == 'push' else (o['result'][0][1], o['result'][1])
+            abstract.append(o2)
+        try:
+            good, info = lin.check(abstract, ((), 0.0), tq_step, timeout=10)
+        except lin.Timeout:
+            res.count('linearizability_search_timeouts')
+            good = True
+        res.count('timed_schedules_checked')
+        res.count('evaluations')
+        if sch.preemptions_in_op:
+            res.seen('schedules', ('timed', sch.trace_hash()))
+        if not good:
+            res.violation('queue history with expiring items is not linearizable against the timed deque model: some '
+                          'item was delivered (or skipped) although at every instant the call can have taken effect it '
+                          'had (not) expired', dict(extra, checker=info, history=hist))
+    finally:
+        probe.set_controller(None)
+        for c in set(caches) | {setup}:
+            try:
+                c.close()
+            except Exception:      # noqa: BLE001
+                pass
+        sc.drop(d)
+
+
 CHILD = r'''
 import json, random, sys, time
 sys.path.insert(0, %(verif)r)
@@ -468,6 +669,11 @@ def run_shard(tier, seed, shard, nshards, res):
         for i in range(60 if tier == 'quick' else 800):
             rng = common.rng_for(seed, 'c10c', shard, i)
             schedule(dc, sc, res, rng, 'c10 schedule seed=%d shard=%d i=%d' % (seed, shard, i))
+            if res.counters.get('violations_raw', 0) > 8:
+                return
+        for i in range(60 if tier == 'quick' else 800):
+            rng = common.rng_for(seed, 'c10t', shard, i)
+            timed_schedule(dc, sc, res, rng, 'c10 timed schedule seed=%d shard=%d i=%d' % (seed, shard, i))
             if res.counters.get('violations_raw', 0) > 8:
                 return
         probe.reset()
